@@ -70,13 +70,24 @@ Definition tree_origin (t : wtree) (id : Z) : option (Z * Z) :=
   | None => None
   end.
 
+(* the window and everything above it are visible *)
+Definition path_visible (t : wtree) (id : Z) : bool :=
+  match t_path id t with
+  | Some p => forallb (fun w => w_vis (t_info w)) p
+  | None => true
+  end.
+
 (* events sent to the drag source directly, at the position relative to it *)
 Definition to_source_spec (claims : Z -> Z) (t : wtree) (src : option Z) (ty btn line col : Z) : list iev :=
   match src with
   | None => []
   | Some s =>
     match t_find s t, tree_origin t s with
-    | Some sub, Some o => fst (mouse_phase claims (mouse_order sub (line - fst o) (col - snd o)) ty btn)
+    | Some sub, Some o =>
+      (* hidden windows and their descendants receive no input: not below a hidden window *)
+      if path_visible t s
+      then fst (mouse_phase claims (mouse_order sub (line - fst o) (col - snd o)) ty btn)
+      else []
     | _, _ => []
     end
   end.
